@@ -33,6 +33,7 @@ type vestMachine struct {
 	sentToRecorded, sendSwitchedOff                                             int
 	sendDisabled                                                                bool
 	govOwner                                                                    bool
+	typesRemoved                                                                int
 	otherKinds                                                                  []sdk.AccAddress // existing accounts of the other vesting kinds
 	rewardAddressSet                                                            int
 	directCliff                                                                 int
@@ -650,6 +651,7 @@ func (m *vestMachine) actions() map[string]func(*rapid.T) {
 		"denomProposal":        func(*rapid.T) { m.actDenomProposal() },
 		"bankSendSwitch":       func(*rapid.T) { m.actBankSendSwitch() },
 		"setWithdrawAddress":   func(*rapid.T) { m.actSetWithdrawAddress() },
+		"vestingTypeRemoved":   func(*rapid.T) { m.actVestingTypeRemoved() },
 	}
 }
 
@@ -675,6 +677,21 @@ func (m *vestMachine) otherKindAccounts() {
 		FundAccount(m.v.App, m.v.Ctx, a, ov)
 		m.otherKinds = append(m.otherKinds, a)
 	}
+}
+
+// actVestingTypeRemoved: a vesting type disappears while pools still name it - what the v1.2.0 upgrade does
+// with the type "Validators" (it re-points one owner's pool and leaves everybody else's).  Such a pool cannot
+// be sent from any more; what it owes its owner at the lock end is unchanged.
+func (m *vestMachine) actVestingTypeRemoved() {
+	if len(m.v.VTypes) < 2 || m.typesRemoved > 0 {
+		m.t.Skip("one removal per history, and one type stays")
+	}
+	i := rapid.IntRange(0, len(m.v.VTypes)-1).Draw(m.t, "removedType")
+	name := m.v.VTypes[i].Name
+	m.v.App.CfevestingKeeper.RemoveVestingType(m.v.Ctx, name)
+	m.v.VTypes = append(append([]VType{}, m.v.VTypes[:i]...), m.v.VTypes[i+1:]...)
+	m.typesRemoved++
+	m.note("vesting type %q removed (as the upgrade does)", name)
 }
 
 // actSetWithdrawAddress: an owner registers another address for his staking rewards with x/distribution
